@@ -146,6 +146,7 @@ CPPParameterList *CPPParameterList::
 substitute_decl(CPPDeclaration::SubstDecl &subst,
                 CPPScope *current_scope, CPPScope *global_scope) {
   CPPParameterList *rep = new CPPParameterList;
+  rep->_includes_ellipsis = _includes_ellipsis;
   bool any_changed = false;
   for (int i = 0; i < (int)_parameters.size(); ++i) {
     CPPInstance *inst =
@@ -172,6 +173,7 @@ substitute_decl(CPPDeclaration::SubstDecl &subst,
 CPPParameterList *CPPParameterList::
 resolve_type(CPPScope *current_scope, CPPScope *global_scope) {
   CPPParameterList *rep = new CPPParameterList;
+  rep->_includes_ellipsis = _includes_ellipsis;
   bool any_changed = false;
   for (int i = 0; i < (int)_parameters.size(); ++i) {
     CPPInstance *inst = _parameters[i];
